@@ -11,12 +11,12 @@ def describe(tier):
         rule="history system: from every validated object of the history sub-universe (live poisoned neighbours flush on both sides; in the thorough tier "
         "also from every state one legal assignment later), every misuse of the property's list at every element position: index tuples with a "
         "component in {-1, dim, dim+1} (read and write), whole-array update of other length / other shape with equal item count, string longer than "
-        "the space fixed at creation (by 1 byte, a slot, many; multi-byte text that fits in characters but not in bytes), same-length list with one larger dynamic item (first item; last item in memory order with the earlier ones replaced / shrunk so that the total does not grow), whole-struct dictionary whose last dynamic part is too large while earlier fields change, non-member value for a union reference (alone, and - as foreign object, unknown (name, data) pair or 1-tuple - inside a whole-struct / whole-array update whose other entries change), integer update naming another length (and, for n-D arrays, the item count); "
+        "the space fixed at creation (by 1 byte, a slot, many; multi-byte text that fits in characters but not in bytes), same-length list with one larger dynamic item (first item; last item in memory order with the earlier ones replaced / shrunk so that the total does not grow), whole-struct dictionary whose last dynamic part is too large while earlier fields change, xobject of the same class and the same TOTAL size whose room is split differently between two dynamic fields (one part a slot larger than the space fixed at its creation), non-member value for a union reference (alone, and - as foreign object, unknown (name, data) pair or 1-tuple - inside a whole-struct / whole-array update whose other entries change), integer update naming another length (and, for n-D arrays, the item count); "
         "plus constructor misuse on the whole universe (_buffer of another context together with _context; _offset without _buffer). "
         "Oracle: an exception is raised and victim + neighbours read back unchanged.",
         bounds=dict(history_types=len(universe.rh(tier)), legal_prefix_depth=0 if tier == "quick" else 1),
         assumptions=["only the misuse classes named by the property are demanded to raise"],
-        must_fire=["x-index", "x-len", "x-str", "x-items", "x-struct", "x-struct-xobj", "x-union", "x-union-in", "x-ctx", "x-offset"],
+        must_fire=["x-index", "x-len", "x-str", "x-items", "x-struct", "x-struct-xobj", "x-struct-resplit", "x-union", "x-union-in", "x-ctx", "x-offset"],
     )
 
 
@@ -75,6 +75,46 @@ def grow_value(t, v):
                 items[idx] = g
                 return {"shape": v["shape"], "items": items}
         return None
+    return None
+
+
+def resplit_value(t, v):
+    """a value of struct type t with the same total size whose room is split differently between two dynamic fields:
+    one string / 1-D scalar array grows by exactly one slot, another shrinks by exactly one slot (None if impossible)"""
+    if t[0] != "St":
+        return None
+
+    def delta(ft, fv, sign):
+        if ft[0] == "Str":
+            if sign > 0:
+                return fv + "G" * 8
+            return fv[:-8] if fv.isascii() and len(fv) >= 8 else None
+        if ft[0] == "A" and len(ft[2]) == 1 and ft[2][0] is None and ft[1][0] == "S":
+            k = 8 // np.dtype(xt.NPDT[ft[1][1]]).itemsize
+            n = fv["shape"][0]
+            if sign > 0:
+                proto = fv["items"][(0,)] if n else xt.gen(ft[1], "ramp")
+                items = dict(fv["items"])
+                for i in range(n, n + k):
+                    items[(i,)] = proto
+                return {"shape": (n + k,), "items": items}
+            if n < k:
+                return None
+            return {"shape": (n - k,), "items": {(i,): fv["items"][(i,)] for i in range(n - k)}}
+        return None
+
+    for gn, gt in t[1]:
+        g = delta(gt, v[gn], +1)
+        if g is None:
+            continue
+        for sn, st in t[1]:
+            if sn == gn:
+                continue
+            sh = delta(st, v[sn], -1)
+            if sh is not None:
+                d = dict(v)
+                d[gn], d[sn] = g, sh
+                return d
     return None
 
 
@@ -180,6 +220,11 @@ def misuse_menu(s, opts, d):
             for rp in inner[:1] + inner[-1:] if len(inner) > 1 else inner:
                 for form in ("foreign-object", "unknown-name", "one-tuple"):
                     evs.append(("x-union-in", "h", path, rp, form))
+        if nt[0] == "St" and (not path or path[-1] not in ("*", "#")) and resplit_value(nt, nv) is not None:
+            # same total size, other split between two dynamic fields, given as an xobject: every part keeps the room fixed at
+            # its creation, so this is a misfit exactly as the same value given as a dictionary is
+            for src in ("other", "same"):
+                evs.append(("x-struct-resplit", "h", path, src))
         if nt[0] == "St" and path and path[-1] not in ("*", "#") and len(nt[1]) > 1 and xt.is_dyn(nt) and grow_value(nt, nv) is not None:
             for via in ("h", "v"):
                 evs.append(("x-struct", via, path))
@@ -272,6 +317,14 @@ def apply_misuse(s, ev):
             else:
                 d[n] = hist.same_size_alt(ft, nv[n], j) if not xt.has_refs(ft) else nv[n]
         hand.assign(rt, rh, path, xt.to_py(nt, d))
+    elif kind == "x-struct-resplit":
+        g = resplit_value(nt, nv)
+        src = xt.construct(nt, xt.to_py(nt, g), _buffer=place.traced("np", 0) if ev[3] == "other" else s.h._buffer)
+        assert hand.size_of(src) == xt.layout_size(nt, nv), "resplit value must have the size of the element"
+        if path:
+            hand.assign(rt, rh, path, src)
+        else:
+            rh._update(src)
     elif kind == "x-struct-xobj":
         # an xobject of the same class whose dynamic parts are larger than the space of the element
         g = grow_value(nt, nv)
